@@ -132,7 +132,7 @@ func VerifC01_Seeds() {
 		vSetBlockSize(1 + vChoose("blocksize", 2))
 	}
 	action := []InvalidSeedAction{InvalidSeedActionBailOut, InvalidSeedActionSkip}[vChoose("invalid-seed-action", 2)]
-	kind := vChoose("seed-kind", 5)
+	kind := vChoose("seed-kind", 6)
 	usable := true   // liveness is claimed
 	var seeds []Seed
 	switch kind {
@@ -155,6 +155,12 @@ func VerifC01_Seeds() {
 		s1, _ := NewIndexSeed(target, seedPath, sidx)
 		s2, _ := NewIndexSeed(target, seedPath, sidx)
 		seeds = []Seed{s1, s2}
+	case 5: // seed file cut short after it was indexed (its remaining bytes are unchanged)
+		data, sidx := verifSeedFile(seedPath, 2, "seed")
+		os.WriteFile(seedPath, data[:len(data)-1-vChoose("cut", len(data))], 0644)
+		s, _ := NewIndexSeed(target, seedPath, sidx)
+		seeds = []Seed{s}
+		usable = action == InvalidSeedActionSkip
 	case 4: // the seed is the target itself (its previous content)
 		_, sidx := verifSeedFile(target, 2, "old-target")
 		s, _ := NewIndexSeed(target, target, sidx)
